@@ -48,11 +48,11 @@ def parts(tier):
     if tier != "quick":
         for cfg in SWEEP:
             extra += [dict(part="ep", cfg=cfg, shards=2), dict(part="fp", cfg=cfg, shards=1)]
-    hist = [dict(part="hist", cfg="asan256", shards=4 if tier == "quick" else 8),
-            dict(part="hist", cfg="asan255", shards=2 if tier == "quick" else 3),
-            dict(part="hist", cfg="asan381", shards=2),
-            dict(part="hist-binary", cfg="asan256", shards=3 if tier == "quick" else 6)]
+    hist = []
     if tier != "quick":
+        # selection histories, full product (the quick tier's few histories per identifier run inside part "fp")
+        hist = [dict(part="hist", cfg="asan256", shards=8), dict(part="hist", cfg="asan255", shards=3),
+                dict(part="hist", cfg="asan381", shards=3), dict(part="hist-binary", cfg="asan256", shards=6)]
         hist += [dict(part="hist", cfg=cfg, shards=2) for cfg in SWEEP]
     return extra + [dict(part="ep", cfg="asan256", shards=6), dict(part="ep", cfg="asan255", shards=2),
             dict(part="ep", cfg="asan381", shards=5),
@@ -1542,13 +1542,14 @@ def curve_battery(R, E, G, n, rng):
     variable-base routine, Q + G and 2Q against the affine model of the curve whose constants the getters report"""
     o, q, g = R.ep_new(), R.ep_new(), R.ep_new()
     k = rng.randrange(1, n)
-    j = rng.randrange(1, n)
+    j = rng.randrange(2, 1 << 16)
     kb = R.bn(k)
     try:
         R.ep_put(g, G[0], G[1])
         Q = E.mul(j, G)
+        kG = E.mul(k, G)
         R.ep_put(q, Q[0], Q[1])
-        for fn, args, exp in (("ep_mul_gen", (o, kb), lambda: E.mul(k, G)), ("ep_mul", (o, q, kb), lambda: E.mul(k, Q)),
+        for fn, args, exp in (("ep_mul_gen", (o, kb), lambda: kG), ("ep_mul", (o, q, kb), lambda: E.mul(j, kG)),
                               ("ep_add", (o, q, g), lambda: E.add(Q, G)), ("ep_dbl", (o, q), lambda: E.add(Q, Q))):
             if not R.has(fn):
                 continue
@@ -1884,29 +1885,43 @@ HIST = {"fp": FIELD_STEPS + ["same-id-again", "curve-selection", "edwards-curve-
         "eb": ["pentanomial", "dense-polynomial", "other-polynomial-id", "same-polynomial-id", "same-id-again",
                "other-binary-curve", "any-binary-curve", "rejected-binary-curve-id", "foreign-binary-curve",
                "curve-selection"]}
-# quick tier: selecting a binary field or curve costs a quarter of a second in the sanitizer builds (tables of the
-# polynomial, generator table) - the histories that replace the polynomial or the curve behind the identifier stay, the
-# rest of the binary histories and the binary step inside the prime-field histories run in the thorough tier
-HIST_QUICK = {"fb": ["pentanomial", "dense-polynomial"],
-              "eb": ["pentanomial", "foreign-binary-curve", "other-polynomial-id"]}
+# Quick tier: a few histories per identifier - one of each group below, which one rotates with the position of the
+# identifier and with VERIF_SEED (so one run spreads the histories over the identifiers of a build and further seeds move
+# them on); every identifier always gets one history that replaces the modulus (polynomial) behind it and, for curves,
+# one that replaces the curve behind it.  The full product identifier x history, more random sequences and all the
+# obligations of the identifier after each history run in the thorough tier.  Selecting a binary field or curve costs a
+# quarter of a second in the sanitizer builds: the quick tier runs one binary-curve history per run (the curve selection
+# re-selects its field, so a stale binary-field selection shows there too) and no binary step inside the prime histories.
+REPLACES_MODULUS = ["dense-prime", "any-dense-prime", "sparse-prime", "family-prime"]
+REPLACES_CURVE = ["foreign-plain-curve", "failed-endom-curve", "own-prime-and-curve", "foreign-super-curve"]
+QUICK_GROUPS = {"ep": [REPLACES_MODULUS, REPLACES_CURVE,
+                       ["same-id-again", "other-field-id", "sequence", "other-curve", "same-field-id", "any-curve",
+                        "foreign-field-id", "sequence", "rejected-curve-id", "any-field", "edwards-curve-selection"]],
+                "fp": [REPLACES_MODULUS, ["same-id-again", "curve-selection", "sequence", "other-field-id", "any-field",
+                                          "foreign-field-id", "same-field-id", "edwards-curve-selection"]],
+                "ed": [REPLACES_MODULUS, ["curve-selection", "same-id-again", "sequence", "other-field-id"]],
+                "eb": [["pentanomial", "foreign-binary-curve", "dense-polynomial", "other-polynomial-id"]],
+                "fb": []}
 SETTER = {"fp": "fp_param_set", "ep": "ep_param_set", "ed": "ed_param_set", "fb": "fb_param_set", "eb": "eb_param_set"}
 
 
-def histories(ctx, kind, env):
-    """[(name, [step, ...])]: every single step that applies to this build, then random sequences of them"""
-    names = HIST[kind]
-    if ctx.quick:
-        names = HIST_QUICK.get(kind, [s for s in names if s != "binary-curve-selection"])
-    single = [s for s in names if not ((s == "edwards-curve-selection" and not env["ed_ids"]) or
-                                            (s in ("binary-curve-selection",) and not env["eb_ids"]) or
+def histories(ctx, kind, env, idx):
+    """-> ([(name, [step, ...] or None = random sequence drawn by the owner of the unit)], applicable single steps)"""
+    single = [s for s in HIST[kind] if not ((s == "edwards-curve-selection" and not env["ed_ids"]) or
+                                            (s == "binary-curve-selection" and (ctx.quick or not env["eb_ids"])) or
                                             (s == "curve-selection" and not env["ep_ids"]) or
                                             (s == "other-curve" and len(env["ep_ids"]) < 2) or
                                             (s == "other-binary-curve" and len(env["eb_ids"]) < 2) or
                                             (s == "other-polynomial-id" and len(env["fb_ids"]) < 2) or
                                             (s == "foreign-field-id" and not env["fp_foreign"]))]
-    out = [(s, [s]) for s in single]
-    for i in range(ctx.n(0 if kind in HIST_QUICK else 2, 12)):
-        out.append(("sequence", None))          # drawn by the owner of the unit
+    if not ctx.quick:
+        return [(s, [s]) for s in single] + [("sequence", None)] * ctx.n(2, 12), single
+    out = []
+    for group in QUICK_GROUPS[kind]:
+        g = [s for s in group if s in single or s == "sequence"]
+        if g:
+            pick = g[(ctx.seed + idx) % len(g)]
+            out.append((pick, None if pick == "sequence" else [pick]))
     return out, single
 
 
@@ -2002,7 +2017,12 @@ def check_curve_after(ob, R, X, nm, v, hist, ref):
     ob("hasse", lambda: (h >= 1 and abs(p + 1 - h * n) <= 2 * math.isqrt(p) + 1, {"p+1-hr": hx(p + 1 - h * n)}))
     ob("curve-arithmetic", lambda: curve_battery(R, E, G, n, rng))
     if P["endom"]:
-        check_curve(ob, R, X, nm, v, "endo", hist=hist)
+        if ctx.quick:
+            # the variable-base multiplication above runs on beta and the GLV basis; here only beta's defining equation
+            beta = R.fp_get(ptr_fn(R, "ep_curve_get_beta")())[0]
+            ob("beta-cube-root-of-unity", lambda: (pow(beta, 3, p) == 1 and beta != 1, {"beta": hx(beta)}))
+        else:
+            check_curve(ob, R, X, nm, v, "endo", hist=hist)
     if not ctx.quick:
         # thorough tier: every obligation of the identifier again (the expensive twist / cofactor-map groups only after
         # the histories that replace the modulus or the curve behind the identifier)
@@ -2060,47 +2080,45 @@ def check_eb_after(ob, R, X, nm, v, hist, ref):
             check_eb(ob, R, X, nm, v, group, hist=hist)
 
 
-def run_hist(ctx, R, X, ob, binary):
-    """parts 'hist' (prime fields, prime curves, Edwards curves) and 'hist-binary' (binary fields and curves): for every
-    identifier of every selection function of this build, select it, run a history of other public calls that change
-    the field / curve state, select it again and judge what is installed"""
+def run_hist(ctx, R, X, ob, kinds, unit=0, fps=None):
+    """For every identifier of the selection functions named by kinds ('ep', 'fp', 'ed', 'eb', 'fb') of this build:
+    select it, run a history of other public calls that change the field / curve state, select it again and judge what
+    is installed.  Thorough tier: parts 'hist' and 'hist-binary'; quick tier: hosted by the processes of part 'fp' (the
+    one part that exists for every build of this module and is short)."""
     cfg = ctx.cfg
     L = R.L
     m = X.get("FB_POLYN")
-    fps, silent = fp_ids(R)
+    if fps is None:
+        fps, silent = fp_ids(R)
+    else:
+        fps, silent = fps
     eps, broken = ep_ids(R)
-    eds = accepted(R, "relic_ed.h", "ed_param_set", "ed_param_get") if not binary or not ctx.quick else []
-    # selecting a binary curve is slow in the sanitizer builds: enumerate them only where they are used
-    need_eb = binary or not ctx.quick
-    ebs_all = accepted(R, "relic_eb.h", "eb_param_set", "eb_param_get") if need_eb else []
-    ebs = ebs_all if binary else []
-    fbs = [(nm, v) for nm, v in sorted(R.EH.get("relic_fb.h", {}).items(), key=lambda kv: kv[1])
-           if nm.rsplit("_", 1)[-1].isdigit() and int(nm.rsplit("_", 1)[-1]) == m] if need_eb else []
+    eds = accepted(R, "relic_ed.h", "ed_param_set", "ed_param_get")
+    by_degree = lambda hdr: [(nm, v) for nm, v in sorted(R.EH.get(hdr, {}).items(), key=lambda kv: kv[1])
+                             if trailing_number(nm) == m]
+    # selecting a binary curve is slow in the sanitizer builds: the quick tier does not enumerate them (the identifiers
+    # named after the degree of this build are taken; one that is not built is skipped, part 'binary' judges that)
+    ebs_all = by_degree("relic_eb.h") if ctx.quick else accepted(R, "relic_eb.h", "eb_param_set", "eb_param_get")
+    fbs = by_degree("relic_fb.h")
     enum_ep = [(nm, v) for nm, v in R.EH.get("relic_ep.h", {}).items() if not nm.startswith("EP_")]
     env0 = dict(bits=R.K["RLC_FP_BITS"], m=m, fp_ids=fps, ep_ids=eps, ed_ids=eds, fb_ids=fbs, eb_ids=ebs_all,
                 fp_foreign=[R.E[nm] for nm in silent],
                 ep_rejected=[v for nm, v in enum_ep if (nm, v) not in eps and (nm, v) not in broken],
                 eb_rejected=[v for nm, v in R.EH.get("relic_eb.h", {}).items() if (nm, v) not in ebs_all])
-    todo = (("eb", ebs), ("fb", fbs)) if binary else (("ep", eps), ("fp", fps), ("ed", eds))
-    ctx.note("hist_identifiers_%s_%s" % (ctx.part, cfg),
-             {kind: [n for n, _ in ids] for kind, ids in todo})
+    todo = [(kind, ids) for kind, ids in (("ep", eps), ("fp", fps), ("ed", eds), ("eb", ebs_all), ("fb", fbs)) if kind in kinds]
+    ctx.note("hist_identifiers_%s_%s" % ("-".join(kinds), cfg), {kind: [n for n, _ in ids] for kind, ids in todo})
     recheck = {"fp": lambda nm, v, hist, ref: check_field(ob, R, X, nm, v, fps, hist=hist, ref=ref["p"]),
                "ep": lambda nm, v, hist, ref: check_curve_after(ob, R, X, nm, v, hist, ref),
                "ed": lambda nm, v, hist, ref: check_ed(ob, R, X, nm, v, hist=hist, ref=ref),
                "fb": lambda nm, v, hist, ref: check_fb(ob, R, X, nm, v, hist=hist, ref=ref),
                "eb": lambda nm, v, hist, ref: check_eb_after(ob, R, X, nm, v, hist, ref)}
-    unit = 0
     used = {}
     for kind, ids in todo:
+        if ctx.quick and kind == "eb" and ids:
+            ids = [ids[(ctx.seed // len(QUICK_GROUPS["eb"][0])) % len(ids)]]       # one binary-curve history per run
         for idx, (nm, v) in enumerate(ids):
             env = dict(env0, v=v, setter=SETTER[kind])
-            hs, single = histories(ctx, kind, env)
-            if ctx.quick and kind in HIST_QUICK and len(ids) > 1:
-                # quick tier, binary: every history for at least one identifier and every identifier with at least one
-                # history (which pairs: rotates with VERIF_SEED); the full product runs in the thorough tier
-                rot = ctx.seed + idx
-                keep = max(1, (len(hs) + len(ids) - 1) // len(ids))
-                hs = [hs[(rot * keep + i) % len(hs)] for i in range(keep)]
+            hs, single = histories(ctx, kind, env, idx)
             ref = None
             for hname, steps in hs:
                 mine = ctx.mine(unit)
@@ -2120,7 +2138,10 @@ def run_hist(ctx, R, X, ob, binary):
                         # its parameter set as a plain selection installs it (judged by the other parts)
                         ref = snapshot(R, X, kind)
                     if ref is None:
-                        ctx.check(False, key + "|installs", "the first selection of this identifier failed")
+                        if kind == "eb" and ctx.quick:
+                            ctx.note("hist_binary_curve_not_built_" + cfg, [nm])
+                        else:
+                            ctx.check(False, key + "|installs", "the first selection of this identifier failed")
                         continue
                     run_history(R, plan, env)                     # ... the state changes behind its back ...
                     recheck[kind](nm, v, hname, ref)              # ... and it is selected again
@@ -2170,6 +2191,9 @@ def run(ctx, part):
             if ctx.mine(unit):
                 check_field(ob, R, X, nm, v, ids)
             unit += 1
+        if ctx.quick:
+            # the quick tier of the selection histories (see QUICK_GROUPS) is hosted by these short processes
+            run_hist(ctx, R, X, ob, ("ep", "fp", "ed") + (("eb",) if cfg in BINARY_CFGS else ()), unit=unit, fps=(ids, silent))
     elif part == "ep":
         ids, broken = ep_ids(R)
         ctx.note("identifiers_ep_" + cfg, [n for n, _ in ids])
@@ -2229,7 +2253,7 @@ def run(ctx, part):
         for nm, v in eds:
             check_ed(ob, R, X, nm, v)
     elif part in ("hist", "hist-binary"):
-        run_hist(ctx, R, X, ob, part == "hist-binary")
+        run_hist(ctx, R, X, ob, ("eb", "fb") if part == "hist-binary" else ("ep", "fp", "ed"))
     ctx.note("functions_exercised", sorted(R.fn_seen))
     ctx.note("error_codes_seen", {str(k): v for k, v in R.err_codes.items()})
 
